@@ -53,7 +53,10 @@ def add_writes(rng, tests, buffered=True):
 def mk(rng, kinds, opts):
     # without --buffer the runner prints through whatever sys.stdout the test has installed: redirecting tests only with --buffer
     tests = add_writes(rng, [dict(k, layer=0) for k in kinds], buffered='--buffer' in opts)
-    return {'layers': LAYER, 'tests': tests, 'options': opts}
+    w = {'layers': LAYER, 'tests': tests, 'options': opts}
+    if rng.random() < 0.2:
+        w['falsy_streams'] = True        # the original streams may be falsy objects
+    return w
 
 
 def generate(rng, tier, rep):
